@@ -223,6 +223,7 @@ func (c *Conn) AsyncRead() {
 					break
 				}
 			}
+			verifPoint("asyncRead.beforeDecr", c)
 			if atomic.AddInt32(&c.readEvents, -1) == 0 {
 				return
 			}
@@ -993,6 +994,7 @@ func (c *Conn) closeWithError(err error) error {
 		}
 
 		c.mux.Unlock()
+		verifPoint("close.beforeTeardown", c)
 		return c.closeWithErrorWithoutLock(err)
 	}
 	c.mux.Unlock()
